@@ -710,6 +710,7 @@ func savedBytesEqual(scene gltf.PolyformScene, container string, want []byte, o 
 	}
 	defer cleanup()
 	path := filepath.Join(dir, "sub", "scene.v2."+container)
+	os.MkdirAll(filepath.Dir(path), 0o755) // the library creates missing directories without permission bits (os.ModeDir): only root could write into them
 	var serr error
 	if kind, val := oracle.Try(func() { serr = gltf.Save(path, scene) }); kind != "" {
 		return vh.Failf("files/save-panic-"+kind, "gltf.Save(%q) panicked: %v", filepath.Base(path), val)
